@@ -263,8 +263,11 @@ func davModel(t harness.Tree, q harness.Req, tagOf func(string) string) *davExpe
 			ok(200, 204)
 		}
 	case "MKCOL":
-		body := hdr["Content-Type"] != ""
+		body := hdr["Content-Type"] != "" || q.Body != ""
 		e.Class = fmt.Sprintf("MKCOL.target=%s.parent=%s.body=%v", k, pk, body)
+		if hdr["Content-Type"] == "" && q.Body != "" {
+			e.Class += ".untyped"
+		}
 		if body {
 			e.refuse(415, "MKCOL announcing a body")
 		}
